@@ -138,8 +138,12 @@ def run(ctx):
     n_cases = 70 if ctx.quick else 3000
     for k in range(n_cases):
         n, m = rng.randint(1, 5), rng.randint(1, 5)
-        if k % 12 == 5: n, m = rng.randint(1, 2), rng.randint(10, 13)       # a wide grid: spans of ten and more columns
-        case(ctx, rng, n, m, random_tiling(rng, n, m, 0.8 if m >= 10 else 0.45), rng.choice(PLACES))
+        if k % 12 == 5:
+            # a wide grid whose first row starts with a cell spanning ten or more columns
+            n, m = rng.randint(1, 3), rng.randint(10, 13); w = rng.randint(10, m)
+            rects = [(0, 0, 1, w)] + [(0, j, 1, 1) for j in range(w, m)] + [(i0 + 1, j0, h, ww) for (i0, j0, h, ww) in (random_tiling(rng, n - 1, m, 0.6) if n > 1 else [])]
+            case(ctx, rng, n, m, rects, rng.choice(PLACES)); continue
+        case(ctx, rng, n, m, random_tiling(rng, n, m), rng.choice(PLACES))
     if not ctx.quick:
         cnt = 0
         for n in range(1, 7):
